@@ -69,6 +69,7 @@ type Result struct {
 	Violations []Violation    `json:"violations"`
 	Counters   map[string]int `json:"counters,omitempty"`
 	Samples    []any          `json:"samples,omitempty"`
+	Traces     []any          `json:"traces,omitempty"` // recorded runs (trace-recording commands), one entry per run
 	Errors     []string       `json:"errors,omitempty"` // machinery errors
 }
 
